@@ -617,6 +617,10 @@ func init() {
 		c.ruleLossyKey("E5.lossy-key", 3)
 		c.rulePackedField("E5.packed-field", 1)
 		c.ruleAfiAddrLen("E4.afi-addrlen", 1)
+		c.ruleProvenanceRatchet("E6.provenance-ratchet", callPkgs, func(f string) bool { return files[f] }, "baselines/provenance.json", 5)
+		c.ruleConditionRatchet("E6.condition-ratchet", callPkgs, func(f string) bool { return files[f] }, "baselines/conds.json", 5)
+		c.ruleGuardRatchet("E6.guard-ratchet", callPkgs, func(f string) bool { return files[f] }, "baselines/readguard.json", 5)
+		c.ruleLoopExitRatchet("E6.loop-exit-ratchet", callPkgs, func(f string) bool { return files[f] }, "baselines/loops.json", 5)
 		c.ruleResetRatchet("E6.reset-ratchet", callPkgs, func(f string) bool { return files[f] }, "baselines/storeconsts.json", 5)
 		for _, o := range c.R.All() {
 			if o.Verdict == report.Violation || o.Verdict == report.Undecided {
@@ -643,6 +647,24 @@ func init() {
 	debugHooks["storeconst-baseline"] = func(p *ir.Program) {
 		c := &Ctx{P: p, R: report.New("DBG", "quick")}
 		b, _ := json.MarshalIndent(c.scSigs(callPkgs), "", " ")
+		fmt.Println("BASELINE-BEGIN")
+		fmt.Println(string(b))
+	}
+}
+
+func init() {
+	debugHooks["provenance-baseline"] = func(p *ir.Program) {
+		c := &Ctx{P: p, R: report.New("DBG", "quick")}
+		b, _ := json.MarshalIndent(c.pvSigs(callPkgs), "", " ")
+		fmt.Println("BASELINE-BEGIN")
+		fmt.Println(string(b))
+	}
+}
+
+func init() {
+	debugHooks["loop-baseline"] = func(p *ir.Program) {
+		c := &Ctx{P: p, R: report.New("DBG", "quick")}
+		b, _ := json.MarshalIndent(c.lpSigs(callPkgs), "", " ")
 		fmt.Println("BASELINE-BEGIN")
 		fmt.Println(string(b))
 	}
